@@ -385,12 +385,13 @@ def run_kani(scratch, names, cap, jobs, logpath, extra=(), rss_cap_kb=RSS_CAP_KB
 PLAYBACK_RE = re.compile(r"Concrete playback unit test for `([^`]*)`:\s*```\s*(.*?)```", re.S)
 
 
-def concrete_playback_batch(scratch, hs, cap, workdir):
+def concrete_playback_batch(scratch, hs, cap, workdir, wanted_by_name=None):
     """Ask Kani for the concrete values of every counterexample (`--concrete-playback` is
     incompatible with -j, so one Kani process per harness, up to 4 at a time; the build is shared).
     Returns {harness name: unit test text}."""
     from concurrent.futures import ThreadPoolExecutor
     out = {}
+    wanted_by_name = wanted_by_name or {}
 
     def one(h):
         logpath = os.path.join(workdir, "playback_%s.log" % h.name)
@@ -398,10 +399,20 @@ def concrete_playback_batch(scratch, hs, cap, workdir):
                                      extra=["-Z", "concrete-playback", "--concrete-playback", "print"],
                                      rss_cap_kb=14 * 1024 * 1024,
                                      tail=["--cbmc-args", "--slice-formula"])
-        for m in PLAYBACK_RE.finditer(text):
-            if m.group(1).split("::")[-1] == h.name:
-                return h.name, m.group(2).strip() + "\n"
-        return h.name, None
+        tests = [m.group(2).strip() + "\n" for m in PLAYBACK_RE.finditer(text)
+                 if m.group(1).split("::")[-1] == h.name]
+        # Kani prints one test per failed check: prefer the one generated for a check that is
+        # part of the verdict (not an ignored allocator-model assertion)
+        wanted = wanted_by_name.get(h.name, [])
+        for t in tests:
+            if any(w and w[:60] in t for w in wanted):
+                return h.name, t
+        artefact = ("rust_dealloc", "free argument", "double free", "unchecked_mul")
+        for t in tests:
+            head = t.split("#[test]")[0]
+            if not any(a in head for a in artefact):
+                return h.name, t
+        return h.name, (tests[0] if tests else None)
 
     with ThreadPoolExecutor(max_workers=4) as ex:
         for name, test in ex.map(one, hs):
@@ -547,7 +558,22 @@ def run_check(prop, tier, seed, extra_engines=None, only=None):
                 rot = seed % len(names)
                 names = names[rot:] + names[:rot]
                 logpath = os.path.join(workdir, "kani.log")
-                rc, text, kani_wall, killed = run_kani(scratch, names, cap, jobs, logpath)
+                # harnesses marked nomem=yes run in a second invocation without CBMC's pointer /
+                # allocator checks (they decide a functional assertion on a path whose drop glue
+                # trips allocator-model artefacts of the stubbed front end; see DESIGN 9.2)
+                nomem = [h.name for h in hs_run if h.attrs.get("nomem") == "yes"]
+                names = [n for n in names if n not in nomem]
+                text, kani_wall, killed = "", 0.0, []
+                if names:
+                    rc, text, kani_wall, killed = run_kani(scratch, names, cap, jobs, logpath)
+                if nomem:
+                    rc2, text2, w2, k2 = run_kani(scratch, nomem, cap, min(NCPU, len(nomem)),
+                                                  os.path.join(workdir, "kani_nomem.log"),
+                                                  extra=["--no-memory-safety-checks"])
+                    text += "\n" + text2
+                    kani_wall += w2
+                    killed += k2
+                    names = names + nomem
                 if "error: could not compile" in text or re.search(r"^error(\[E\d+\])?:", text, re.M) and "Checking harness" not in text:
                     tail = "\n".join([l for l in text.splitlines() if l.startswith("error")][:10])
                     log("INCONCLUSIVE: scratch build with harnesses failed:\n" + tail)
@@ -575,6 +601,18 @@ def run_check(prop, tier, seed, extra_engines=None, only=None):
             h = byname.get(name)
             if h is None:
                 continue
+            if r.status == "violated" and h.attrs.get("ignore") == "dealloc":
+                # constructor-level harnesses with a stubbed front end: the half-built operator
+                # is dropped on the constructor's error paths after having been moved through
+                # `Result`s byte-wise, which CBMC's allocator model flags (pointer provenance lost
+                # in the byte copy). These assertions of Kani's C runtime are not the property.
+                rest = [f for f in r.failed_checks
+                        if not (f[2] == "__rust_dealloc" or "rust_dealloc" in f[0] or "free argument" in f[0]
+                                or "double free" in f[0] or "unchecked_mul" in f[0])]
+                if not rest:
+                    r.status = "holds"
+                    r.reason = "allocator-model assertions of the drop glue ignored (ignore=dealloc)"
+                r.failed_checks = rest or r.failed_checks
             expect = h.attrs.get("expect", "holds")
             if expect == "violated":
                 # reachability / sanity twin: must come back violated
@@ -600,7 +638,8 @@ def run_check(prop, tier, seed, extra_engines=None, only=None):
         if to_replay:
             log("replaying %d counterexample(s) natively" % len(to_replay))
             tests = concrete_playback_batch(scratch, [h for h, _r in to_replay],
-                                            max(h.cap(tier) for h, _r in to_replay), workdir)
+                                            max(h.cap(tier) for h, _r in to_replay), workdir,
+                                            {h.name: [f[0] for f in r.failed_checks] for h, r in to_replay})
             native = [(h, tests[h.name]) for h, _r in to_replay
                       if h.name in tests and h.attrs.get("replay", "native") == "native"]
             dev = native_replay_batch(native)
